@@ -35,8 +35,11 @@ META = dict(
         "all C03 assumptions (mirror semantics, closed-form M_lh, real projection on real spaces)",
         "c_out is specified only by the assertions in Operator.simplify_for_constant_input "
         "(keys inside the constants and outside the operator domain): it must be None or empty",
-        "minimiser sub-check: 3 SteepestDescent steps; a minimiser that raises on a generated "
-        "energy (e.g. leaves the domain of a logarithm) is counted, not judged"],
+        "minimiser sub-check: 3 SteepestDescent steps, all-real programs only; a minimiser that "
+        "raises on a generated energy (e.g. leaves the domain of a logarithm) is counted, not "
+        "judged",
+        "DESIGN lists a BlockDiagonalOperator override; the pinned tree has none (overrides are "
+        "discovered from the class tree at run time)"],
     need=["pairs", "value_cmp", "jac_cmp", "adjoint_cmp", "metric_cmp", "partial_var_cmp",
           "energy_adapter_cmp", "minimiser_runs", "override:_OpChain", "override:_OpSum",
           "override:_OpProd", "override:SumOperator", "override:ChainOperator",
@@ -44,7 +47,7 @@ META = dict(
           "override:VariableCovarianceGaussianEnergy", "override:Operator(generic)",
           "ConstCollector.add", "ConstCollector.mult", "sum_same_target_key"],
     quick=dict(cases=240, workers=6, budget_s=75),
-    thorough=dict(cases=12000, workers=16, budget_s=780),
+    thorough=dict(cases=10000, workers=16, budget_s=780),
     design_ref="DESIGN.md §5 C04",
     level_text=("random programs x all constant-key subsets, compared entry-wise against jax "
                 "autodiff of an independent mirror; exploration of a bounded grammar"),
@@ -388,13 +391,14 @@ def case(ck, i):
         # ---- EnergyAdapter(constants=K) ----------------------------------------------------------
         if energy and not wrapped:
             energy_adapter(ck, I, mr, prog, ops[-1], xf, x, K, V, o, me, vcols, vlay, lay, viol,
-                           has_ham)
+                           has_ham, not cfg["cplx"])
 
     ck.note(dict(prog=prog, wrapped=wrapped, subsets=per_subset), nontrivial=any_nontrivial,
             klass=("energy-" if energy else "op-") + prog["nodes"][-1][0] + "-%dkeys" % len(keys))
 
 
-def energy_adapter(ck, I, mr, prog, E, xf, x, K, V, o, me, vcols, vlay, lay, viol, has_ham):
+def energy_adapter(ck, I, mr, prog, E, xf, x, K, V, o, me, vcols, vlay, lay, viol, has_ham,
+                   allreal):
     cset = set(K)
     ck.hit("energy_adapter_cmp")
     try:
@@ -446,7 +450,12 @@ def energy_adapter(ck, I, mr, prog, E, xf, x, K, V, o, me, vcols, vlay, lay, vio
                  constants=list(K))
             return
     # three minimiser steps: the constants must stay out of the position, and the energy seen
-    # by the minimiser must be E(. u c)
+    # by the minimiser must be E(. u c).  Only for all-real programs: with complex constants
+    # NIFTy's gradient on a real key is complex (the user is expected to embed with
+    # Realizer.adjoint), so a descent step would leave the real domain.
+    if not allreal:
+        ck.hit("minimiser_skipped_complex_program")
+        return
     try:
         with np.errstate(all="ignore"):
             mini = I.SteepestDescent(I.GradientNormController(iteration_limit=3))
